@@ -769,6 +769,8 @@ class PVLParser(object):
         self.parse_WSC_until(None, tokens)
         try:
             return self.parse_units(value, tokens)
+        except LexerError:
+            raise
         except (ValueError, StopIteration):
             return value
 
